@@ -34,7 +34,7 @@ RULE = (
 )
 ASSUMPTIONS = ["integer-like dict keys are excluded (confectioner treats '0' as a list index)"]
 FLOORS = {"option_cases": (15000, 60000), "present_falsy": (3000, 12000), "absent_default": (2500, 2500),
-          "domain_decided": (500, 1500), "option_history_steps": (5000, 20000), "namespace_member_checks": (1500, 30000), "set_cases": (1500, 30000), "string_default_cases": (650, 650)}
+          "domain_decided": (500, 1500), "option_history_steps": (5000, 20000), "namespace_member_checks": (1500, 30000), "set_cases": (1500, 30000), "string_default_cases": (650, 650), "transported_option_checks": (4000, 4000)}
 SHARDS_QUICK = 4
 
 KEYS = ["A", "S", "S.X", "S.Y", "T.X", "L", "L.0", "L.1", "L.2", "S.X.Z"]
@@ -485,6 +485,48 @@ def string_default_family(ctx):
                         ctx.nontrivial(spec_hash(["strdef", key, text, how, o]))
 
 
+def transported(ctx):
+    """An Option that has travelled (pickle round trip under every protocol, copy.copy, copy.deepcopy) is still that
+    Option: 'no default' stays 'no default' (the marker for it is a singleton whose identity must survive the trip),
+    a present key still wins, the default and the domain still apply."""
+    import pickle
+
+    routes = [(f"pickle-{p}", (lambda x, p=p: pickle.loads(pickle.dumps(x, protocol=p)))) for p in range(pickle.HIGHEST_PROTOCOL + 1)]
+    routes += [("copy", copy.copy), ("deepcopy", copy.deepcopy), ("pickle-twice", lambda x: pickle.loads(pickle.dumps(pickle.loads(pickle.dumps(x)))))]
+    defaults = [("none", None), ("const", 0), ("const", None), ("const", ""), ("const", [1]), ("tmpl", "t{S.Y}"),
+                ("spec", {"k": "opt", "key": "B", "dk": "spec", "dv": {"k": "opt", "key": "C"}})]
+    domains = [None, ["container", [0, 1, "a", None, False, ""]]]
+    dicts = [{}, {"A": None}, {"A": 0, "S": {"X": False, "Y": "sy"}}, {"A": "", "S": {"X": []}, "B": "b"}, {"A": "{B}", "B": 1, "S": {"X": {}}},
+             {"S": {"Y": 2}, "C": "c"}, {"A": "zz", "S": {"X": "zz"}}]
+    for key in ("A", "S.X"):
+        for (dk, dv), dom in itertools.product(defaults, domains):
+            spec = {"k": "opt", "key": key}
+            if dk != "none":
+                spec["dk"], spec["dv"] = dk, dv
+            if dom:
+                spec["dom"] = dom
+            original = build({"datasets": {}, "root": spec}).root
+            for route, go in routes:
+                try:
+                    moved = go(original)
+                except Exception as e:  # noqa: BLE001
+                    ctx.violation("option-does-not-travel", f"{route} of {original!r} raised {type(e).__name__}: {e}", {"family": "transported", "option": spec, "route": route})
+                    return
+                for o in dicts:
+                    for op in ("evaluate", "validate", "keys", "explain"):
+                        want = observe(getattr(original, op), copy.deepcopy(o))
+                        got = observe(getattr(moved, op), copy.deepcopy(o))
+                        ctx.evaluations += 2
+                        ctx.count("transported_option_checks")
+                        if got != want:
+                            ctx.violation("transported-option-differs", f"{route} copy of {original!r}: {op}({o}) gives {short(got)}, the original {short(want)}",
+                                          {"family": "transported", "option": spec, "route": route, "options": o, "op": op})
+                            return
+                if repr(moved) != repr(original):
+                    ctx.violation("transported-option-differs", f"{route} copy of {original!r} prints as {moved!r}", {"family": "transported", "option": spec, "route": route})
+                    return
+
+
 def canon_keys(outcome):
     return {k[1] for k in outcome[1][1]}
 
@@ -495,6 +537,8 @@ def run(ctx):
         string_default_family(ctx)
     if ctx.shard == 0:
         scalar_sections(ctx)
+    if ctx.shard == 1 % ctx.shards:
+        transported(ctx)
     n = ctx.n(160, 3000)
     for i in range(n):
         r = case_rng(ctx, i)
@@ -511,6 +555,8 @@ def replay(ctx, rep):
     w = rep["witness"]
     if w.get("family") == "string-default":
         string_default_family(ctx)
+    elif w.get("family") == "transported":
+        transported(ctx)
     elif "program" in w:
         s = w["program"]["root"]
         option_case(ctx, s["key"], s.get("dk", "none"), s.get("dv"), s.get("dom"), w["options"], "replay")
